@@ -649,10 +649,10 @@ pub fn replay(engine: &str, case: &serde_json::Value) -> Result<(), String> {
 
 pub fn run(ctx: &Ctx) -> Report {
     let mut stats = Stats::default();
-    let (st, mut failure) = run_proptest(ctx, "ops", 101, ctx.n(400_000, 6_000_000), case_strategy, |c: &TCase, st| check_ops(c, st));
+    let (st, mut failure) = run_proptest(ctx, "ops", 101, ctx.n(400_000, 18_000_000), case_strategy, |c: &TCase, st| check_ops(c, st));
     stats.merge(st);
     if failure.is_none() {
-        let (st, f) = run_proptest(ctx, "probe", 102, ctx.n(300_000, 4_000_000), probe_strategy, |p: &Probe, st| check_probe(p, st));
+        let (st, f) = run_proptest(ctx, "probe", 102, ctx.n(300_000, 12_000_000), probe_strategy, |p: &Probe, st| check_probe(p, st));
         stats.merge(st);
         failure = f;
     }
